@@ -32,7 +32,8 @@ Definition classify_number (negative double : bool) (txt : list byte) : pres :=
         match ds with
         | [] => PErr                               (* "-": invalid digit *)
         | _ => let v := (- Z.of_N (N_of_digits ds))%Z in
-               if (i64_min <=? v)%Z then POk (JNum (NNeg v)) else parse_to_double txt
+               if (v =? 0)%Z then POk (JNum (NPos 0))          (* -0, -00: the integer 0 *)
+               else if (i64_min <=? v)%Z then POk (JNum (NNeg v)) else parse_to_double txt
         end
     | [] => PErr
     end
